@@ -235,7 +235,31 @@ def r5_observers(tree, rep):
     # fire(Failure) errbacks every waiting observer and stores the error
     ff = tree.func(OBS, "SequenceObserver", "fire")
     stores = [n for n in ast.walk(ff) if isinstance(n, ast.Assign) and any(is_self_attr(t, "_error") for t in n.targets)]
-    loops = [n for n in ast.walk(ff) if isinstance(n, ast.For) and dotted(n.iter) == "self._observers"
+    order = {id(st): i for i, st in enumerate(x for x in ast.walk(ff) if isinstance(x, ast.stmt))}
+
+    def _before(a, b):
+        """statement a precedes statement b (same block: list order; else source order)"""
+        pa, pb = getattr(a, "_parent", None), getattr(b, "_parent", None)
+        for f in ("body", "orelse", "finalbody"):
+            la = getattr(pa, f, None)
+            if isinstance(la, list) and a in la and b in la:
+                return la.index(a) < la.index(b)
+        return order.get(id(a), 0) < order.get(id(b), 0)
+
+    def _is_observers(e):
+        """self._observers, a copy of it, or a local snapshot of it taken before the attribute is reset"""
+        if isinstance(e, ast.Call) and isinstance(e.func, ast.Name) and e.func.id in ("list", "tuple") and len(e.args) == 1:
+            e = e.args[0]
+        if dotted(e) == "self._observers":
+            return True
+        if isinstance(e, ast.Name):
+            binds = [a for a in ast.walk(ff) if isinstance(a, ast.Assign) and any(isinstance(t, ast.Name) and t.id == e.id for t in a.targets)]
+            resets = [a for a in ast.walk(ff) if isinstance(a, ast.Assign) and any(is_self_attr(t, "_observers") for t in a.targets)]
+            if len(binds) == 1 and len(binds[0].targets) == 1 and _is_observers(binds[0].value) \
+                    and all(_before(binds[0], r) for r in resets):
+                return True
+        return False
+    loops = [n for n in ast.walk(ff) if isinstance(n, ast.For) and _is_observers(n.iter)
              and any(isinstance(a, ast.Attribute) and a.attr == "errback" for c in ast.walk(n) if isinstance(c, ast.Call) for a in c.args)]
     rep.check("C18.R5", "SequenceObserver.fire(Failure) stores the error and errbacks every waiting Deferred",
               bool(stores) and bool(loops), site(ff, OBS), key="C18.R5:SequenceObserver.fire:error")
